@@ -13,6 +13,7 @@ package c01
 import (
 	"fmt"
 	"math"
+	"math/big"
 	"strconv"
 	"strings"
 
@@ -38,6 +39,12 @@ func Run(c *core.Ctx) {
 	for _, s := range fixedTexts {
 		doParse(c, s)
 	}
+	if !c.Quick() && c.Seed%1000 == 0 {
+		// very large trees, once per thorough run (first shard): 10^5 tips, a node of degree 10^4, a deep comb
+		for kind := 0; kind < 4; kind++ {
+			doRT(c, bigTree(c.G, kind))
+		}
+	}
 	n := c.Scale(1000, 10000)
 	for i := 0; i < n; i++ {
 		big := !c.Quick() && i%40 == 0
@@ -48,13 +55,24 @@ func Run(c *core.Ctx) {
 			doRT(c, n)
 		}
 	}
-	m := c.Scale(600, 5000)
+	m := c.Scale(1500, 8000)
 	for i := 0; i < m; i++ {
 		doFloat(c, genLiteral(c.G))
 	}
 	k := c.Scale(400, 5000)
 	for i := 0; i < k; i++ {
 		doParse(c, genText(c.G))
+	}
+	q := c.Scale(300, 3000)
+	for i := 0; i < q; i++ {
+		doParse(c, genQuotedText(c.G, 0)+";")
+	}
+	for _, s := range fixedMulti {
+		doMulti(c, s)
+	}
+	mm := c.Scale(150, 1500)
+	for i := 0; i < mm; i++ {
+		doMulti(c, genMulti(c.G))
 	}
 }
 
@@ -78,6 +96,12 @@ func Replay(c *core.Ctx, lines []string) {
 				panic(err)
 			}
 			doParse(c, s)
+		case "C01.multi":
+			s, err := core.Unescape(f[1])
+			if err != nil {
+				panic(err)
+			}
+			doMulti(c, s)
 		case "C01.float":
 			s, err := core.Unescape(f[1])
 			if err != nil {
@@ -349,6 +373,187 @@ func doParse(c *core.Ctx, s string) {
 	c.Emit("C01.parse", core.Escape(s), "ok", a.Dump())
 }
 
+// doMulti: ONE Parser on the text, Parse() called until it fails (at most 12 times).
+func doMulti(c *core.Ctx, s string) {
+	p := newick.NewParser(strings.NewReader(s))
+	var classes []string
+	var dumps []string
+	for i := 0; i < 12; i++ {
+		var t *tree.Tree
+		var err error
+		if pn, msg := core.Safe(func() { t, err = p.Parse() }); pn {
+			classes = append(classes, "panic:"+core.Escape(msg))
+			break
+		}
+		if err != nil {
+			classes = append(classes, "err")
+			break
+		}
+		a, wf := core.Alpha(t)
+		if !wf.OK() {
+			classes = append(classes, "panic:malformed")
+			break
+		}
+		classes = append(classes, "ok")
+		dumps = append(dumps, a.Dump())
+	}
+	c.Emit("C01.multi", core.Escape(s), strings.Join(classes, ","), strings.Join(dumps, "|"))
+}
+
+var fixedMulti = []string{"(a,b);(c,d);", "(a,b);\n(c,d);\n", "(a,b); [x] (c,d);", "(a,b);(c,d)", "(a,b);;(c,d);", "(a,b)(c,d);", "(a,b);x(c,d);",
+	"(a,b)); (c,d);", "(a,b);(c:inf,d);(e,f);", "", ";", "(a,b);   ", "[h](a,b);[i](c,d);[j]", "(a,b);(c,(d,e)f)g;((h));", "(a,b),(c);(d,e);"}
+
+// labels and comments as other programs write them: the parser knows no quoting (a quote is an ordinary
+// identifier rune, so metacharacters inside quotes still act), blanks are identifier runes, NHX / BEAST
+// comments are ordinary comments.  Outside WF01: tie only.
+var quotedLabels = []string{"'a b'", "'a,b'", "'it''s'", "\"x y\"", "'(x)'", "a b", "'a:1'", "'a[1]'", "_x_", "'  sp  '", "a_b", "'a;b'", "''", "'",
+	"Homo sapiens", "'Homo sapiens'", "x'y", "'a]'", " lead", "trail ", "a\tb", "'a\nb'", "0.5", "'0.5'", "1e3 ", "a/b", "'1/2'"}
+
+var richComments = []string{"[&&NHX:S=human:E=1.1.1:D=N]", "[&!color=#ff0000]", "[&rate=0.1,height_95%_HPD={1.0,2.0}]", "[%]", "[&&NHX]", "[]",
+	"[&&NHX:B=100:T=9606][second]", "[& a = 1 ]", "[&&NHX:S='x]", "[[nested]", "[&&NHX:N=a(b,c)d;]", "[ ]", "[\t&&NHX ]"}
+
+func genQuotedText(g *core.G, depth int) string {
+	var b strings.Builder
+	k := 2 + g.Intn(3)
+	b.WriteByte('(')
+	for i := 0; i < k; i++ {
+		if i > 0 {
+			b.WriteString([]string{",", ",", ", ", " ,"}[g.Intn(4)])
+		}
+		if depth < 3 && g.Chance(0.3) {
+			b.WriteString(genQuotedText(g, depth+1))
+			switch g.Intn(4) {
+			case 0:
+				b.WriteString(quotedLabels[g.Intn(len(quotedLabels))])
+			case 1:
+				b.WriteString([]string{"0.9", "100", "0.9/0.01", "'0.9'", "95 "}[g.Intn(5)])
+			}
+		} else {
+			if g.Chance(0.05) {
+				b.WriteString(richComments[g.Intn(len(richComments))]) // a comment before the label: an error
+			}
+			b.WriteString(quotedLabels[g.Intn(len(quotedLabels))])
+		}
+		if g.Chance(0.4) {
+			b.WriteString(richComments[g.Intn(len(richComments))])
+		}
+		if g.Chance(0.6) {
+			b.WriteString([]string{":1", ":0.5", ": 2", ":1e-3", ":'1'", ":1 "}[g.Intn(6)])
+			if g.Chance(0.4) {
+				b.WriteString(richComments[g.Intn(len(richComments))])
+			}
+		}
+	}
+	b.WriteByte(')')
+	if depth == 0 {
+		if g.Chance(0.3) {
+			b.WriteString(quotedLabels[g.Intn(len(quotedLabels))])
+		}
+		if g.Chance(0.3) {
+			b.WriteString(richComments[g.Intn(len(richComments))])
+		}
+	}
+	return b.String()
+}
+
+// bigTree: 0 = star of 10^4 tips, 1 = balanced binary tree of 10^5 tips, 2 = 10^5 tips under a root of
+// degree 10^4 (each child a small multifurcation), 3 = comb (caterpillar) of depth 3000.  All WF01, decorated lightly.
+func bigTree(g *core.G, kind int) *core.N {
+	cnt := 0
+	tip := func() *core.N {
+		cnt++
+		e := core.NewE()
+		if cnt%3 != 0 {
+			e.Len = float64(cnt%1000) / 8
+		}
+		x := &core.N{Name: fmt.Sprintf("t%d", cnt), E: e}
+		if cnt%97 == 0 {
+			x.Comments = []string{"c  " + x.Name}
+		}
+		return x
+	}
+	inner := func(kids []*core.N) *core.N {
+		cnt++
+		e := core.NewE()
+		e.Len = 0.1
+		if cnt%2 == 0 {
+			e.Sup = float64(cnt%101) / 100
+			if cnt%4 == 0 {
+				e.Pval = 0.05
+			}
+		}
+		x := &core.N{E: e, Kids: kids}
+		if cnt%5 == 1 {
+			x.Name, e.Sup, e.Pval = fmt.Sprintf("N%d", cnt), -1, -1
+		}
+		if cnt%89 == 0 {
+			e.Comments = []string{"b;" + fmt.Sprint(cnt)}
+		}
+		return x
+	}
+	var root *core.N
+	switch kind {
+	case 0:
+		root = &core.N{}
+		for i := 0; i < 10000; i++ {
+			root.Kids = append(root.Kids, tip())
+		}
+	case 1:
+		var bal func(n int) *core.N
+		bal = func(n int) *core.N {
+			if n == 1 {
+				return tip()
+			}
+			return inner([]*core.N{bal(n / 2), bal(n - n/2)})
+		}
+		root = bal(100000)
+		root.E = nil
+	case 2:
+		root = &core.N{}
+		for i := 0; i < 10000; i++ {
+			var ks []*core.N
+			for j := 0; j < 10; j++ {
+				ks = append(ks, tip())
+			}
+			root.Kids = append(root.Kids, inner(ks))
+		}
+	default:
+		cur := inner([]*core.N{tip(), tip()})
+		for i := 0; i < 3000; i++ {
+			cur = inner([]*core.N{cur, tip()})
+		}
+		root = cur
+		root.E = nil
+	}
+	root.Name = "R"
+	root.Comments = []string{"big"}
+	return root
+}
+
+func genMulti(g *core.G) string {
+	var b strings.Builder
+	k := 1 + g.Intn(5)
+	for i := 0; i < k; i++ {
+		n, _ := genTree(g, true, false, 1+g.Intn(50))
+		core.NumberEdges(n)
+		t, err := core.Build(n)
+		if err != nil {
+			panic(err)
+		}
+		txt := t.Newick()
+		if len(txt) > 600 {
+			txt = "(s1,s2:1[c])r;"
+		}
+		if g.Chance(0.1) && len(txt) > 2 { // damage one tree
+			pos := g.Intn(len(txt))
+			txt = txt[:pos] + string("();,:[] x"[g.Intn(9)]) + txt[pos+1:]
+		}
+		b.WriteString(txt)
+		b.WriteString([]string{"", "", "\n", " ", "\r\n\t", "[note]", "x", ";"}[g.Intn(8)])
+	}
+	return strings.ToValidUTF8(b.String(), "?")
+}
+
 func doFloat(c *core.Ctx, lit string) {
 	v, err := strconv.ParseFloat(lit, 64)
 	if err != nil {
@@ -605,9 +810,121 @@ var fixedLiterals = []string{"1e999", "-1e999", "0x1p-2", "0X1P+2", "0x1p", "0x1
 	"0e999999999999", "1e999999999999", "0.000…1", "1 ", " 1", "1,5", "1/2", "0.5/0.25", "/", "1/", "/1", "inf/1", "0x1p0/2", "١٢", "１２", "0b101", "0o17", "017", "1p5", "0x1e5", "0x1e+5", "1f", "1d5",
 	"2.2250738585072011e-308", "2.2250738585072014e-308", "0.1e1", "100e-2", "5e-1", "1e22", "1e21", "123456789e-17",
 	"0." + strings.Repeat("0", 400) + "1", strings.Repeat("9", 400), strings.Repeat("9", 308), strings.Repeat("9", 309) + ".5",
-	"0x" + strings.Repeat("f", 20) + "p0", "0x1p1023", "0x1p1024", "0x1p-1074", "0x1p-1075", "0x1.8p-1075", "0x1p-1076", "0x0p0", "0x.p0", "0x1.p0", "0x1p0_0"}
+	"0x" + strings.Repeat("f", 20) + "p0", "0x1_0p0", "0x1p0_0", "0x_p0", "0X1.8P+1", "0x1p+1024", "0x.0000000000001p-1022", "0x1.0000000000000800000001p0", "0x1.00000000000008p0", "0x1.00000000000018p0", "+0x1p-1074", "-0x0.8p-1074", "0x1p-1075", "0x1.000001p-1075", "iNf", "INFINITY", "+InFiNiTy", "-NAN", "NaN ", "+.5e1", "+5.", "+1_000.5", "1_000_000e-3", "1e1_0", "1e+1_0", "4.9406564584124654e-324", "2.4703282292062327208e-324", "2.4703282292062327209e-324", "2.2250738585072009e-308", "2.2250738585072011e-308", strings.Repeat("1", 400) + "e-90", "0." + strings.Repeat("0", 320) + strings.Repeat("7", 400), strings.Repeat("9", 400) + "e-92", "0x1p1023", "0x1p1024", "0x1p-1074", "0x1p-1075", "0x1.8p-1075", "0x1p-1076", "0x0p0", "0x.p0", "0x1.p0", "0x1p0_0"}
+
+func randDigits(g *core.G, n int, alphabet string) string {
+	b := make([]byte, n)
+	for i := range b {
+		b[i] = alphabet[g.Intn(len(alphabet))]
+	}
+	return string(b)
+}
+
+// sprinkle inserts underscores at random positions (some legal, some not)
+func sprinkle(g *core.G, s string) string {
+	k := 1 + g.Intn(3)
+	for j := 0; j < k; j++ {
+		pos := g.Intn(len(s) + 1)
+		s = s[:pos] + "_" + s[pos:]
+	}
+	return s
+}
+
+// randCase flips the case of letters at random
+func randCase(g *core.G, s string) string {
+	b := []byte(s)
+	for i, c := range b {
+		if g.Chance(0.5) {
+			if c >= 'a' && c <= 'z' {
+				b[i] = c - 32
+			} else if c >= 'A' && c <= 'Z' {
+				b[i] = c + 32
+			}
+		}
+	}
+	return string(b)
+}
 
 func genLiteral(g *core.G) string {
+	switch g.Intn(13) {
+	case 6: // hex floats: mantissa with or without a point, binary exponent anywhere from far below to far above the range
+		m := randDigits(g, 1+g.Intn(18), "0123456789abcdefABCDEF")
+		if g.Chance(0.5) {
+			pos := g.Intn(len(m) + 1)
+			m = m[:pos] + "." + m[pos:]
+		}
+		e := []int{0, 1, -1, 52, -52, 1023, 1024, 970, 971, -1022, -1023, -1074, -1075, -1076, -1080, 2000, -2000}[g.Intn(17)] - 4*g.Intn(3)
+		s := []string{"", "+", "-"}[g.Intn(3)] + []string{"0x", "0X"}[g.Intn(2)] + m
+		switch g.Intn(8) {
+		case 0: // no exponent: an error
+		case 1:
+			s += "p"
+		default:
+			s += fmt.Sprintf("%s%s%d", []string{"p", "P"}[g.Intn(2)], []string{"", "+"}[g.Intn(2)], e)
+		}
+		if g.Chance(0.25) {
+			s = sprinkle(g, s)
+		}
+		return s
+	case 7: // underscores in decimal literals
+		s := strconv.FormatFloat(float64(g.Intn(1000000))/float64(1+g.Intn(1000)), []byte{'f', 'e', 'g'}[g.Intn(3)], -1, 64)
+		return sprinkle(g, s)
+	case 8: // Inf / NaN in every spelling
+		w := []string{"inf", "infinity", "nan", "in", "infi", "infinit", "infinityy", "na", "nann", "i", "n"}[g.Intn(11)]
+		return []string{"", "", "+", "-", "++", " "}[g.Intn(6)] + randCase(g, w)
+	case 9: // leading '+', leading zeros, bare points
+		s := strconv.FormatFloat(float64(g.Intn(100000))/float64(1+g.Intn(100)), []byte{'f', 'e'}[g.Intn(2)], g.Intn(8), 64)
+		return []string{"+", "+0", "00", "+.", "+00."}[g.Intn(5)] + s
+	case 10: // mantissas of hundreds of digits, exponent bringing them anywhere around the float64 range
+		nd := 50 + g.Intn(400)
+		m := randDigits(g, nd, "0123456789")
+		if g.Chance(0.6) {
+			pos := g.Intn(len(m) + 1)
+			m = m[:pos] + "." + m[pos:]
+		}
+		if g.Chance(0.7) {
+			m += fmt.Sprintf("e%d", g.Intn(800)-400-nd/2)
+		}
+		return m
+	case 11: // sub-normals and their neighbourhood: k * 2^-1074 printed exactly or perturbed in the last digits
+		k := uint64(1 + g.Intn(64))
+		if g.Chance(0.3) {
+			k = g.R.Uint64() >> (12 + uint(g.Intn(40)))
+		}
+		v := math.Float64frombits(k)
+		s := strconv.FormatFloat(v, 'e', 17+g.Intn(30), 64)
+		if g.Chance(0.5) { // midpoint between two sub-normals, as a long decimal
+			r := new(big.Float).SetPrec(2000).SetFloat64(v)
+			h := new(big.Float).SetPrec(2000).SetFloat64(math.Float64frombits(1))
+			h.Quo(h, big.NewFloat(2))
+			r.Add(r, h)
+			s = r.Text('e', 760+g.Intn(3))
+			if g.Chance(0.5) {
+				s = strings.Replace(s, "e-", []string{"1e-", "0001e-", "9e-"}[g.Intn(3)], 1)
+			}
+		}
+		return s
+	case 12: // exact halfway between two adjacent normal floats, and one digit to either side
+		v := math.Float64frombits(g.R.Uint64() &^ (1 << 63))
+		if math.IsNaN(v) || math.IsInf(v, 0) {
+			v = 1.5
+		}
+		n := math.Nextafter(v, math.Inf(1))
+		a := new(big.Float).SetPrec(2200).SetFloat64(v)
+		b := new(big.Float).SetPrec(2200).SetFloat64(n)
+		a.Add(a, b)
+		a.Quo(a, big.NewFloat(2))
+		s := a.Text('e', 800)
+		switch g.Intn(3) {
+		case 0:
+			s = strings.Replace(s, "e", "1e", 1)
+		case 1:
+			// drop the last digit: slightly below or equal
+			i := strings.Index(s, "e")
+			s = s[:i-1] + s[i:]
+		}
+		return s
+	}
 	switch g.Intn(6) {
 	case 0: // a float64 printed in one of strconv's formats
 		v := math.Float64frombits(g.R.Uint64())
